@@ -12,6 +12,7 @@ import (
 	"testing"
 	"time"
 
+	"github.com/hedzr/is"
 	"github.com/hedzr/logg/slog"
 	"github.com/hedzr/logg/slog/verifharness/vlib"
 	"pgregory.net/rapid"
@@ -91,6 +92,10 @@ func dest(c config, r slog.Level) []int {
 	}
 	return c.Normal
 }
+
+// dupOK: deliveries to a writer that the configuration lists c times - one per entry, or one when the library folds a
+// duplicate registration (the statements speak of the selected SET of destinations)
+func dupOK(got, c int) bool { return got == c || (c > 1 && got == 1) }
 
 func count(l []int, w int) (n int) {
 	for _, x := range l {
@@ -175,7 +180,6 @@ func run(t vlib.TB, test string, sc scenario) {
 		}
 	}
 	lg.SetLevel(sc.Cfg.L)
-	debug := sc.Cfg.L == slog.DebugLevel
 	between := ""
 
 	global, inCall, faultsOn, tripped := 0, 0, true, false
@@ -236,9 +240,14 @@ func run(t vlib.TB, test string, sc scenario) {
 			t.Fatalf("C13 %s: call #%d (%s, severity %v) caused more than %d Write attempts - cascade", desc(), n, phase, r, cascadeLimit)
 		}
 		evs := log.Snapshot()[before:]
-		admit := model.Admit(sc.Cfg.L, r, debug)
+		admit := model.Admit(sc.Cfg.L, r, is.DebugMode())
+		behindGate := false
 		if sc.Via == 2 {
-			admit = true // WriteInternal is the half behind the gate (the bridge asks Enabled first), like WriteThru
+			// WriteInternal is the half behind the gate (the bridge asks Enabled first), like WriteThru: on the current
+			// tree it writes whatever the level says. Whether a direct call of it by a refusing logger writes or not no
+			// statement says - either all selected destinations get the record or none does
+			behindGate = !admit
+			admit = true
 		}
 		want := dest(sc.Cfg, r)
 		if !admit {
@@ -291,21 +300,25 @@ func run(t vlib.TB, test string, sc scenario) {
 				}
 			}
 		}
+		if behindGate && len(recGot) == 0 && len(diagGot) == 0 {
+			want, admit = nil, false
+			labels["behind-the-gate-call-refused"] = true
+		}
 		for w := 0; w < nwAll; w++ {
-			if recGot[w] != count(want, w) {
+			if !dupOK(recGot[w], count(want, w)) {
 				t.Fatalf("C13 %s: call #%d (%s, severity %v, admitted=%v): writer w%d got the record %d times, want %d (selected %v) although other destinations failed=%v; events: %v",
 					desc(), n, phase, r, admit, w, recGot[w], count(want, w), want, anyFail, evs)
 			}
 		}
-		wantDiag := anyFail && r != slog.WarnLevel && model.Admit(sc.Cfg.L, slog.WarnLevel, debug)
+		wantDiag := anyFail && r != slog.WarnLevel && model.Admit(sc.Cfg.L, slog.WarnLevel, is.DebugMode())
 		var wd []int
 		if wantDiag {
 			wd = dest(sc.Cfg, slog.WarnLevel)
 		}
 		for w := 0; w < nwAll; w++ {
-			if diagGot[w] != count(wd, w) {
+			if !dupOK(diagGot[w], count(wd, w)) {
 				t.Fatalf("C13 %s: call #%d (%s, severity %v): writer w%d got %d diagnostic records, want %d (a failure happened=%v, warning admitted=%v, warning destinations=%v); events: %v",
-					desc(), n, phase, r, w, diagGot[w], count(wd, w), anyFail, model.Admit(sc.Cfg.L, slog.WarnLevel, debug), dest(sc.Cfg, slog.WarnLevel), evs)
+					desc(), n, phase, r, w, diagGot[w], count(wd, w), anyFail, model.Admit(sc.Cfg.L, slog.WarnLevel, is.DebugMode()), dest(sc.Cfg, slog.WarnLevel), evs)
 			}
 		}
 		if wantDiag && len(wd) > 0 {
@@ -330,7 +343,7 @@ func run(t vlib.TB, test string, sc scenario) {
 			if r == slog.WarnLevel {
 				labels["failing-warning"] = true
 			}
-			if !model.Admit(sc.Cfg.L, slog.WarnLevel, debug) {
+			if !model.Admit(sc.Cfg.L, slog.WarnLevel, is.DebugMode()) {
 				labels["diagnostic-not-admitted"] = true
 			}
 		}
@@ -345,14 +358,15 @@ func run(t vlib.TB, test string, sc scenario) {
 	faultsOn = false
 	switch sc.Withdraw {
 	case 1:
-		if len(sc.Cfg.Normal) > 1 {
+		// (a destination listed once only: what removing one of several registrations of a writer leaves is not stated)
+		if len(sc.Cfg.Normal) > 1 && count(sc.Cfg.Normal, sc.Cfg.Normal[0]) == 1 {
 			w := sc.Cfg.Normal[0]
 			lg.RemoveWriter(pool[w])
 			sc.Cfg.Normal = sc.Cfg.Normal[1:]
 			between += fmt.Sprintf(" RemoveWriter(w%d)", w)
 		}
 	case 2:
-		if len(sc.Cfg.Error) > 1 {
+		if len(sc.Cfg.Error) > 1 && count(sc.Cfg.Error, sc.Cfg.Error[0]) == 1 {
 			w := sc.Cfg.Error[0]
 			lg.RemoveErrorWriter(pool[w])
 			sc.Cfg.Error = sc.Cfg.Error[1:]
@@ -360,7 +374,7 @@ func run(t vlib.TB, test string, sc scenario) {
 		}
 	case 3:
 		for _, lvl := range []int{int(slog.WarnLevel), int(slog.InfoLevel), int(slog.ErrorLevel), int(slog.AlwaysLevel), int(slog.DebugLevel)} {
-			if l := sc.Cfg.Leveled[lvl]; len(l) > 0 {
+			if l := sc.Cfg.Leveled[lvl]; len(l) > 0 && count(l, l[0]) == 1 {
 				lg.RemoveLevelWriter(slog.Level(lvl), pool[l[0]])
 				between += fmt.Sprintf(" RemoveLevelWriter(%d, w%d)", lvl, l[0])
 				sc.Cfg.Leveled[lvl] = l[1:] // an emptied per-level list no longer takes precedence
@@ -371,7 +385,6 @@ func run(t vlib.TB, test string, sc scenario) {
 	if sc.NewLevel > 0 {
 		sc.Cfg.L = slog.Level(sc.NewLevel - 1)
 		lg.SetLevel(sc.Cfg.L)
-		debug = debug || sc.Cfg.L == slog.DebugLevel
 		between += fmt.Sprintf(" SetLevel(%v)", sc.Cfg.L)
 	}
 	for i, r := range sc.Suffix {
